@@ -536,6 +536,8 @@ _add_run("C04", Run("yaml_types", ["./internal/yaml"], {"internal/yaml/zz_verif_
 _add_run("C03", Run("pipeline_parameters", ["./internal/codegen"], {"internal/codegen/zz_verif_c20_strict.go": "harness/pcodegen/zz_verif_c20_strict.go",
                                                                          "internal/codegen/zz_verif_c20_docs_pipeline.go": "harness/pcodegen/zz_stub_docs.go"},
                     ["VerifC03Interpolate"], "internal/codegen", needs_leaf=True, repeat=400, judge="prefix:C03"))
+_add_run("C03", Run("orderedmap", ["./internal/orderedmap"], {"internal/orderedmap/zz_verif_c19.go": "harness/orderedmap/zz_verif_c19.go"}, ["VerifC03FromMap"], "internal/orderedmap",
+                    repeat=400, judge="prefix:C03"))
 _add_run("C03", Run("user_passes", ["./internal/ast/compiler"], COMPILER_HARNESS, ["VerifC03UserPasses"], "internal/ast/compiler", needs_leaf=True, repeat=400, judge="prefix:C03"))
 _add_run("C03", Run("converter", ["./internal/zzverif/hveneers"], VENEERS_HARNESS, ["VerifC14UnionLists", "VerifC03Compose", "VerifC03LanguageRefs"], "internal/zzverif/hveneers", test_pkg_name="hveneers",
                     needs_leaf=True, repeat=400, judge="prefix:C03"))
